@@ -44,3 +44,14 @@ Theorem C09_oracle_accepts_model_traces : forall es rf0 n w0, (1 <= rf0)%nat -> 
 Proof. exact c09_oracle_model. Qed.
 
 Print Assumptions C09_oracle_accepts_model_traces.
+
+(** the same for histories with concurrent pairs; the fixed (revision, rebuilding) assignment is stated
+    over the requests in the order the controller lock serialises them ([flatten]) *)
+From Jiva Require Import Ctl.Model Ctl.Corr Ctl.Oracles Ctl.Proofs Ctl.OracleProofs2 Ctl.OracleProofsX Ctl.OracleProofsX2.
+
+Theorem C09_oracle_accepts_model_traces_with_pairs : forall xs rf0 n w0, (1 <= rf0)%nat -> forallb xev_wf xs = true ->
+  forallb (xev_addrs_lt n) xs = true -> fixed_assign [] (flatten xs) = true ->
+  walk_g (fun g => lift (c09_step rf0 g) nopair) 0 [] (obs0 rf0 n w0) xs (trace n (init rf0 w0) xs) = None.
+Proof. exact c09_oracle_model_x. Qed.
+
+Print Assumptions C09_oracle_accepts_model_traces_with_pairs.
